@@ -205,6 +205,8 @@ type c34Btc struct {
 	bitcoin.Chain
 	w              *c34World
 	reverseMempool bool
+	// failTx: GetTransaction fails for this transaction (index into w.txs), -1 = none
+	failTx int
 }
 
 func (b *c34Btc) touchesWallet(t *c34Tx, idx int) bool {
@@ -238,7 +240,10 @@ func (b *c34Btc) GetTxHashesForPublicKeyHash(pkh [20]byte) ([]bitcoin.Hash, erro
 }
 
 func (b *c34Btc) GetTransaction(h bitcoin.Hash) (*bitcoin.Transaction, error) {
-	for _, t := range b.w.txs {
+	for i, t := range b.w.txs {
+		if t.hash == h && i == b.failTx {
+			return nil, fmt.Errorf("transaction lookup failed")
+		}
 		if t.hash == h {
 			return t.tx, nil
 		}
@@ -374,7 +379,7 @@ type c34Result struct {
 func c34Run(r *vrep.R, c c34Case, w *c34World, probe bool) (res c34Result) {
 	hashes, labels := c34Registered(w)
 	registered := hashes[c.Registered]
-	btc := &c34Btc{w: w, reverseMempool: c.Reverse}
+	btc := &c34Btc{w: w, reverseMempool: c.Reverse, failTx: -1}
 	bridge := &c34Bridge{w: w, registered: registered}
 	fp := fmt.Sprintf("history=%s mempool=%d registered=%s reverse=%v", c.History, c.Mempool, labels[c.Registered], c.Reverse)
 	size := len(c.History)*100 + c.Mempool*10 + c.Registered
@@ -493,6 +498,19 @@ func c34Run(r *vrep.R, c c34Case, w *c34World, probe bool) (res c34Result) {
 	}
 	if ownSweepUnspent && serr == nil {
 		report("sync:fresh-missed", "an unspent wallet output comes from the wallet's own sweep transaction but the check passed")
+	}
+	if ownSweepUnspent {
+		// the same question while the Bitcoin client cannot serve one of the
+		// transactions: the check may fail for either reason but must not pass
+		for k := range w.txs {
+			fb := &c34Btc{w: w, reverseMempool: c.Reverse, failTx: k}
+			var ferr error
+			if p, stack := vrep.Guard(func() { ferr = EnsureWalletSyncedBetweenChains(c34Wallet, nil, bridge, fb) }); p != nil {
+				report("sync:panic", fmt.Sprintf("EnsureWalletSyncedBetweenChains panicked when the lookup of transaction %d fails: %v\n%s", k, p, stack))
+			} else if ferr == nil {
+				report("sync:fresh-missed-on-lookup-failure", fmt.Sprintf("an unspent wallet output comes from the wallet's own sweep transaction; with the lookup of transaction %d (mempool=%v) failing the check passed", k, w.txs[k].mempool))
+			}
+		}
 	}
 	if !ownSweepUnspent && serr != nil {
 		report("sync:fresh-false-alarm", fmt.Sprintf("no unspent wallet output comes from an own sweep transaction but the check failed: %v", serr))
